@@ -1486,11 +1486,35 @@ class LiteralForms(ast.NodeTransformer):
                 names = {x.id for e in v.values for x in ast.walk(e) if isinstance(x, ast.Name)}
                 if all(stores.get(nm, 0) == 0 or nm in params and stores.get(nm, 0) == 0 for nm in names):
                     table[k] = v
+        # locals bound once to a tuple/list display of simple values and used once as `*name`
+        seqs = {}
+        star_pos: Dict[str, int] = {}
+        for n in _own_walk(node):
+            if isinstance(n, ast.Call):
+                for a in n.args:
+                    if isinstance(a, ast.Starred) and isinstance(a.value, ast.Name):
+                        star_pos[a.value.id] = star_pos.get(a.value.id, 0) + 1
+        for n in _own_walk(node):
+            if isinstance(n, ast.Assign) and len(n.targets) == 1 and isinstance(n.targets[0], ast.Name) and isinstance(n.value, (ast.Tuple, ast.List)) and n.value.elts and all(_pure_simple(e) for e in n.value.elts):
+                k = n.targets[0].id
+                if stores.get(k) == 1 and loads.get(k, 0) == 1 and star_pos.get(k, 0) == 1 and k not in params:
+                    names = {x.id for e in n.value.elts for x in ast.walk(e) if isinstance(x, ast.Name)}
+                    last_store = {}
+                    for m in _own_walk(node):
+                        if isinstance(m, ast.Name) and isinstance(m.ctx, (ast.Store, ast.Del)) and m.id in names:
+                            last_store[m.id] = max(last_store.get(m.id, 0), getattr(m, "lineno", 10 ** 9))
+                    in_loop = any(isinstance(m, (ast.For, ast.While)) and any(x is n for x in ast.walk(m)) for m in _own_walk(node))
+                    if not in_loop and all(last_store.get(nm, 0) < n.lineno for nm in names):
+                        seqs[k] = n.value
+        if not hasattr(self, "seqs"):
+            self.seqs = []
+        self.seqs.append(seqs)
         self.tables.append(table)
         self.drop.append(set())
         self.generic_visit(node)
         dropped = self.drop.pop()
         self.tables.pop()
+        self.seqs.pop()
         if dropped:
             _remove_bindings(node, dropped)
         return node
@@ -1516,6 +1540,16 @@ class LiteralForms(ast.NodeTransformer):
         if isinstance(node.func, ast.Name) and node.func.id == "getattr" and len(node.args) == 2 and not node.keywords and isinstance(node.args[1], ast.Constant) and isinstance(node.args[1].value, str) and node.args[1].value.isidentifier():
             self.count += 1
             return ast.copy_location(ast.Attribute(value=node.args[0], attr=node.args[1].value, ctx=ast.Load()), node)
+        if getattr(self, "seqs", None) and self.seqs[-1] and any(isinstance(a, ast.Starred) and isinstance(a.value, ast.Name) and a.value.id in self.seqs[-1] for a in node.args):
+            new_args = []
+            for a in node.args:
+                if isinstance(a, ast.Starred) and isinstance(a.value, ast.Name) and a.value.id in self.seqs[-1]:
+                    new_args += [clone_ast(e) for e in self.seqs[-1][a.value.id].elts]
+                    self.drop[-1].add(a.value.id)
+                else:
+                    new_args.append(a)
+            node.args = new_args
+            self.count += 1
         if self.tables and any(k.arg is None and isinstance(k.value, ast.Name) and k.value.id in self.tables[-1] for k in node.keywords):
             kws = []
             for k in node.keywords:
